@@ -241,8 +241,11 @@ class Contract:
         self.inline = True
         return self
 
-    def is_generator(self):
-        self.generator = True
+    def is_generator(self, mode=True):
+        """mode True: the yielded values are kept as a concrete list (no yield inside a cut loop); 'items': every yielded value is
+        appended (as an object id) to the ghost sequence G.gen_items; 'chunks': every yielded value is a sequence, appended to G.gen_flat
+        (concatenation of everything yielded so far), G.gen_n counts the yields."""
+        self.generator = mode
         return self
 
 
